@@ -25,9 +25,18 @@ def consts(tier: str):
             "AllOrders": "FALSE", "PassBound": "4",
         }
     return {
-        "Variant": '"fixed"', "Topos": g.tla_set(["face2", "edge2", "row3", "ell3", "hook3"]), "Rot1Choice": "{1, 11}",
-        "RotChoice": "{1, 4, 30, 43}", "ChopOpts": g.tla_set(["A2", "B3", "D1E2"]), "MaxChopped": "2", "Cover": "TRUE",
+        "Variant": '"fixed"', "Topos": g.tla_set(["face2", "edge2", "row3", "ell3", "hook3"]), "Rot1Choice": "{1}",
+        "RotChoice": "{1, 4, 30}", "ChopOpts": g.tla_set(["A2", "B3"]), "MaxChopped": "2", "Cover": "TRUE",
         "AllOrders": "FALSE", "PassBound": "4",
+    }
+
+
+def consts_multisection():
+    """thorough only: two-section chops and more numberings on the two-block topologies"""
+    return {
+        "Variant": '"fixed"', "Topos": g.tla_set(["face2", "edge2", "corner2"]), "Rot1Choice": "{1, 11}",
+        "RotChoice": "{1, 4, 7, 30, 43}", "ChopOpts": g.tla_set(["A2", "B3", "D1E2"]), "MaxChopped": "2", "Cover": "TRUE",
+        "AllOrders": "TRUE", "PassBound": "4",
     }
 
 
@@ -38,7 +47,9 @@ def run(ctx: Ctx) -> None:
     c = consts(ctx.tier)
     ctx.rule = ("configurations = Init states of Grading.tla (topology x corner numbering x chop placement covering "
                 "every family); non-trivial = at least two blocks share an edge; distinct by (vertex ids, chops)")
-    cfgs = g.model_check(ctx, c, INVS, timeout=1500, emit=True).records
+    cfgs = g.model_check(ctx, c, INVS, timeout=3000, emit=True).records
+    if ctx.tier == "thorough":
+        cfgs += g.model_check(ctx, consts_multisection(), INVS, timeout=3000, emit=True).records
     rng = random.Random(ctx.seed)
     n_sched = 2 if ctx.tier == "quick" else 6
     limit = 700 if ctx.tier == "quick" else 20000
